@@ -233,6 +233,10 @@ MergeOK(srcs) ==
 \* ------------------------------------------------------------------------
 \* Part 3: the populations of the conformance runs
 \* ------------------------------------------------------------------------
+\* Root files without a name (rank >= h.named) are stored either in blocks flagged NO_NAME_HASH (nnh = "flag": the
+\* block has no name-hash array) or in ordinary blocks (nnh = "plain": the array is there, hash 0).  Whether a V2-V4
+\* block has the array depends on the block's flags alone, never on the header's named-files count; either way every
+\* FileDataID resolves and only named files resolve by path.
 \* locale masks of the root blocks a population is dealt over (1 block: enUS; 2: enUS, deDE; 3: enUS, deDE, 0)
 LocENUS == 2
 LocDEDE == 32
